@@ -117,7 +117,7 @@ def run(ctx):
             s, m = st['shape'], st['res']
             n += 1
             tx, ty = rnd.choice([(0, 0), (3, -5), (1000, 77), (-10000, 4096), (10 ** 6, -3 * 10 ** 6)])
-            fr = geom.Frame(2, 1.0, float(tx), float(ty), rnd.randint(0, 5))
+            fr = geom.Frame(2, 1.0, float(tx), float(ty), rnd.randint(0, 5), ints=(n % 5 == 3))     # whole numbers as Python ints, odd whole sizes as unsigned numpy integers
             want = [m['box'][0] + tx, m['box'][1] + tx, m['box'][2] + ty, m['box'][3] + ty]
             try:
                 if n % 4 == 2:
